@@ -368,7 +368,16 @@ def build(script, perm_seed=None, block=None, noise=0):
         rng.shuffle(norder)
     junk = pyrtl.Block()
     keep = []
+    class _Hole(object):
+        def __init__(self):
+            self.a = 1
+
     for m in script['mems']:
+        if rng is not None and noise:
+            # perturb where the next memory object lands: open holes in the allocator's pools
+            junk_objs = [_Hole() for _ in range(rng.randrange(0, 40 * noise))]
+            keep.append(junk_objs[::rng.choice([2, 3, 5])])
+            del junk_objs
         if m.get('rom'):
             mem = pyrtl.RomBlock(m['bw'], m['aw'], rom_pyrtl_data(m['rom'], m['bw']),
                                  name=m.get('name', ''), max_read_ports=None,
